@@ -135,6 +135,9 @@ def Durable.merge (d : Durable) : Map → Durable × Map
       let (d2, ds) := Durable.merge d1 rest
       (d2, match dv with | some v => (k, v) :: ds | none => ds)
 
+/-- a restart of the broker on the same state directory: the store is kept, the cache is gone -/
+def Durable.restart (d : Durable) : Durable := { db := d.db, cache := [] }
+
 /-- the cache only ever holds what the store holds -/
 def Durable.coherent (d : Durable) : Prop := ∀ k v, d.cache.lookup k = some v → d.db.lookup k = some v
 
